@@ -144,7 +144,9 @@ def make_case(rng, b, fam, orient, mode, fractions=(1.0, 0.75, 0.5, 0.25), N=N_D
     dmin = math.sqrt(min(gen.min_image_sq(G, [sites[a][i] - sites[c][i] for i in range(3)], N, R)
                          for a in range(S) for c in range(a + 1, S))) / N
     rmax = min(dmin / 2 - 0.03, 0.45 * min(w))
-    labels = ['A' if i < (S + 1) // 2 else 'B' for i in range(S)]
+    # label pairs incl. one label being a substring of the other (Li1 / Li10): sites are grouped by label EQUALITY
+    LA, LB = [('A', 'B'), ('Li1', 'Li10'), ('Li10', 'Li1'), ('Li', 'Li1'), ('48h2', '48h'), ('B', 'AB')][int(rng.integers(0, 6))]
+    labels = [LA if i < (S + 1) // 2 else LB for i in range(S)]
     if mode == 'float':
         r, Q = pick_radius(rng, N, 0.6, rmax, [f])
         radii = [r] * S
@@ -152,8 +154,8 @@ def make_case(rng, b, fam, orient, mode, fractions=(1.0, 0.75, 0.5, 0.25), N=N_D
     else:
         rA, QA = pick_radius(rng, N, 0.6, rmax, [f])
         rB, QB = pick_radius(rng, N, 0.6, rmax, [f])
-        radii = [rA if lab == 'A' else rB for lab in labels]
-        kw_radius = {'A': float(rA), 'B': float(rB)}
+        radii = [rA if lab == LA else rB for lab in labels]
+        kw_radius = {LA: float(rA), LB: float(rB)} if rng.random() < 0.5 else {LB: float(rB), LA: float(rA)}
     T, A = int(rng.integers(2, 7)), int(rng.integers(1, 5))
     nearface = bool(rng.random() < 0.5)
     flags = ()
@@ -162,8 +164,8 @@ def make_case(rng, b, fam, orient, mode, fractions=(1.0, 0.75, 0.5, 0.25), N=N_D
     visit = None
     if mode == 'dict-unvisited':
         # only the last member of group A and the last of group B are ever approached
-        lastA = max(i for i, lab in enumerate(labels) if lab == 'A')
-        lastB = max(i for i, lab in enumerate(labels) if lab == 'B')
+        lastA = max(i for i, lab in enumerate(labels) if lab == LA)
+        lastB = max(i for i, lab in enumerate(labels) if lab == LB)
         visit = [lastA, lastB]
     pos = positions_near(rng, G, N, sites, radii, T, A, visit, flags=flags)
     shifts = rng.integers(-2, 3, size=(T, A, 3))
@@ -173,13 +175,16 @@ def make_case(rng, b, fam, orient, mode, fractions=(1.0, 0.75, 0.5, 0.25), N=N_D
     # the reference structure of the sites may come with its own, slightly different cell (e.g. from a CIF):
     # sites are located by their fractional coordinates in the simulation cell
     scale = float(rng.choice([1.0, 1.0, 1.04, 0.95, 1.3]))
-    structure = Structure(lattice=Lattice(M * scale), species=[species] * S, coords=np.array(sites) / N, labels=labels)
+    # ... and with fractional coordinates as given, not necessarily inside [0, 1) (pymatgen keeps them unless asked to wrap)
+    site_shift = rng.integers(-2, 3, size=(S, 3)) if rng.random() < 0.5 else np.zeros((S, 3), dtype=int)
+    structure = Structure(lattice=Lattice(M * scale), species=[species] * S, coords=np.array(sites) / N + site_shift, labels=labels)
     thr = [int(math.ceil(r * r * N * N - 1e-9)) for r in radii]
     thr_in = [int(math.ceil(f * f * r * r * N * N - 1e-9)) for r in radii]
     rec = {'b': b, 'G': G, 'N': N, 'R': R, 'sites': sites, 'thr': thr, 'thrIn': thr_in, 'pos': pos,
            'auto': False, 'raised': False, 'tooClose': False,
            'meta': {'family': fam, 'orientation': orient, 'mode': mode, 'inner_fraction': f, 'radius': kw_radius,
-                    'labels': labels, 'nearface': nearface, 'sites_lattice_scale': scale}}
+                    'labels': labels, 'nearface': nearface, 'sites_lattice_scale': scale,
+                    'sites_outside_cell': bool(site_shift.any())}}
     return rec, traj, structure, dict(site_radius=kw_radius, site_inner_fraction=f)
 
 
